@@ -128,8 +128,15 @@ def rule_pos_conv(prog):
                 "LSP positions must come from document::as_position / as_pos_range (the one place that knows about lines and "
                 "UTF-16 columns); this value is computed some other way")
 
+    def _conv_fn(x):
+        return x["d"] in ("document::as_position", "document::get_insertion_index")
+
+    conv_helpers = set(b["p"] for b in bodies if c.file_of(b["sp"]).endswith("document.rs") and not _conv_fn(b)
+                       and hir.only_called_from(prog, b["p"], _conv_fn))
     for b in bodies:
         f = c.file_of(b["sp"])
+        if b["p"] in conv_helpers:
+            continue  # private helper of the conversion functions: part of the conversion layer
         for s in hir.nodes(b["body"], "Struct"):
             adt = s.get("adt") or ""
             if not adt.startswith("lsp_types"):
@@ -138,7 +145,7 @@ def rule_pos_conv(prog):
             fl = {x["name"]: x["e"] for x in s["fields"]}
             if nm == "Position":
                 zero = all(hir.lit_value(v) == "0" for v in fl.values())
-                if b["d"] == "document::as_position":
+                if _conv_fn(b):
                     continue
                 n += 1
                 out.add(b["d"], "Position literal only in document::as_position (or the 0/0 origin)", zero, c.loc(s["sp"]),
@@ -164,7 +171,7 @@ def rule_pos_conv(prog):
         # reads of incoming positions
         for fld in hir.nodes(b["body"], "Field"):
             if fld["name"] in ("line", "character") and "lsp_types::Position" in c.tstr(fld["base"]["t"]):
-                if b["d"] == "document::get_insertion_index":
+                if _conv_fn(b):
                     continue
                 v = from_conv(fld["base"], b, _defs(b), _params(b))
                 ok = v is True or (isinstance(v, tuple) and b["d"].startswith("features::semantic_tokens::")
